@@ -353,6 +353,11 @@ func (g *genState) inbound(m int64) {
 	if g.r.P(0.2) {
 		mm = m ^ (1 << 13) // same identifier, other body
 	}
+	if decodeMsg(m).pc == 1 && g.r.P(0.5) {
+		// the node's own VAA of this identifier has an empty payload (its decoder refuses such bytes
+		// although it stores them); a peer's copy of the identifier carries a body that does decode
+		mm = m &^ (7 << 4)
+	}
 	g.add("vaa", mm, setPick, variant, d, "")
 }
 
